@@ -162,6 +162,10 @@ func scanFile(r io.Reader) (*machoMarkers, error) {
 			f.loadCsStart = cmdPos
 		}
 	}
+	if len(dat) != 0 && f.loadCsStart == 0 {
+		// a new LC_CODE_SIGNATURE is placed at the end of sizeofcmds; readers look for it behind the last command
+		return nil, errors.New("mach-o load commands do not fill sizeofcmds")
+	}
 	if f.linkEditHdrPos == 0 {
 		return nil, errors.New("mach-o file has no __LINKEDIT segment to hold a signature")
 	}
